@@ -387,7 +387,7 @@ package tss
 //@   requires p != nil
 //@   requires [sender-id-wellformed] !isnil(msg) ==> (msgfrom(msg) != nil ==> msgfrom(msg).MessageWrapper_PartyID != nil)
 //@   ensures result1 != nil ==> !result0
-//@   ensures [C06.valid-message-shape] result1 == nil ==> (result0 && !isnil(msg) && !isnil(msgcontent(msg)) && msgfrom(msg) != nil && msgvalid(msg))
+//@   ensures [C06.valid-message-shape] result1 == nil ==> (result0 && !isnil(msg) && !isnil(msgcontent(msg)) && msgfrom(msg) != nil && msgvalid(msg) && 0 <= msgfrom(msg).Index)
 
 //@ func parseWrappedMessage
 //@   props C08 C06
